@@ -123,6 +123,9 @@ pub enum BadReq {
     EmptyCasPost,
     BadImport { body: String },
     UnknownMethod { method: String, path: String },
+    /// several requests (refused and harmless ones) on ONE keep-alive connection: each must
+    /// be answered, in order, and the connection must stay usable
+    KeepAlive { kinds: Vec<u8> },
 }
 
 #[derive(Clone, Debug, PartialEq, Serialize, Deserialize)]
@@ -204,6 +207,7 @@ impl Op {
                 BadReq::EmptyCasPost => "empty-cas-post",
                 BadReq::BadImport { .. } => "bad-import",
                 BadReq::UnknownMethod { .. } => "unknown-method",
+                BadReq::KeepAlive { .. } => "keep-alive-sequence",
             },
         }
     }
@@ -630,6 +634,7 @@ pub fn bad_req(_p: &Profile) -> BoxedStrategy<BadReq> {
         2 => any::<u8>().prop_map(|seed| BadReq::AbsentCas { seed }),
         1 => Just(BadReq::EmptyCasPost),
         3 => sel(BAD_IMPORTS).prop_map(|body| BadReq::BadImport { body }),
+        3 => proptest::collection::vec(0u8..8, 2..7).prop_map(|kinds| BadReq::KeepAlive { kinds }),
         2 => (
             proptest::sample::select(vec!["PUT", "PATCH", "OPTIONS", "TRACE", "HEAD"]).prop_map(|s| s.to_string()),
             proptest::sample::select(vec!["/", "/x", "/cas", "/import", "/version", "/head/x"]).prop_map(|s| s.to_string()),
@@ -1603,6 +1608,52 @@ impl Interp {
         Ok(())
     }
 
+    fn keep_alive(&mut self, sock: &std::path::Path, kinds: &[u8]) -> Check {
+        use crate::http::{Body, Conn, Req};
+        let mut conn = Conn::open(sock).map_err(|e| infra(format!("connect: {e:?}")))?;
+        for (i, k) in kinds.iter().enumerate() {
+            let absent = sha256_integrity(&[*k, i as u8, 7, 7, 7]);
+            let (mut req, want): (Req, std::ops::Range<u16>) = match k % 8 {
+                0 => (Req::new("GET", "/version"), 200..201),
+                1 => (Req::new("GET", "/zzz"), 400..401),
+                2 => (Req::new("POST", "/t?ttl=head:0").body(Body::Len(b"x".to_vec())), 400..401),
+                3 => (Req::new("GET", "/head/no.such.topic.anywhere"), 404..405),
+                4 => (Req::new("GET", &format!("/cas/{absent}")), 404..405),
+                5 => (Req::new("DELETE", "/not-an-id"), 400..401),
+                6 => (Req::new("POST", "/import").body(Body::Len(b"{".to_vec())), 400..401),
+                _ => (Req::new("GET", "/?limit=abc"), 400..401),
+            };
+            req.close = false;
+            conn.send(&req.to_bytes()).ok();
+            self.http_requests += 1;
+            self.checks += 1;
+            let resp = conn.read_response(crate::httpx::T).map_err(|e| {
+                Fail::new(
+                    Class::Http,
+                    format!(
+                        "request #{i} ({} {}) of a keep-alive sequence {kinds:?} got no well-formed response: {e:?}",
+                        req.method, req.target
+                    ),
+                )
+            })?;
+            if !want.contains(&resp.status) {
+                return Err(Fail::new(
+                    Class::Http,
+                    format!(
+                        "request #{i} ({} {}) of a keep-alive sequence {kinds:?} was answered {} (expected {})",
+                        req.method, req.target, resp.status, want.start
+                    ),
+                ));
+            }
+        }
+        self.stream_read(ReadPath::Sync, None, None, None).map_err(|mut f| {
+            f.class = Class::Http;
+            f.msg = format!("after a keep-alive sequence of refused requests: {}", f.msg);
+            f
+        })?;
+        Ok(())
+    }
+
     /// Send a request that must be refused: well-formed 4xx response, nothing
     /// stored, server still serving.
     fn bad_request(&mut self, b: &BadReq) -> Check {
@@ -1610,6 +1661,9 @@ impl Interp {
         let Some(sock) = self.sock.clone() else {
             return Ok(());
         };
+        if let BadReq::KeepAlive { kinds } = b {
+            return self.keep_alive(&sock, kinds);
+        }
         let mut allow_404 = false;
         let req = match b {
             BadReq::BadId { delete, id } => {
@@ -1667,6 +1721,7 @@ impl Interp {
                 allow_404 = true;
                 Req::new(method, path)
             }
+            BadReq::KeepAlive { .. } => unreachable!(),
         };
         self.http_requests += 1;
         self.checks += 1;
